@@ -108,6 +108,19 @@ def run(ctx):
                           f"{tname}.{m}() {why}: the call raises TypeError when the receiver is a {tname}", c,
                           f"{tname}.{m} accepts the call", key=f"R12.1:{tname}.{m}:rejects:{','.join(kws) or n_pos}")
     ctx.floor("R12.1", "(call site, implementation) pairs", n_pairs, 8)
+    # an override of _pack that delegates to member records hands BOTH parameters on: dropping excluded_fields makes grouped records ignore the
+    # ignored-fields configuration while plain records honour it
+    for sub in prog.subclasses(rec):
+        opk = prog.methods_of(sub).get("_pack")
+        if opk is None:
+            continue
+        oparams = func_params(opk)[1:]
+        for c in [c for c in calls_in(opk) if isinstance(c.func, ast.Attribute) and c.func.attr == "_pack" and not (isinstance(c.func.value, ast.Call) and call_name(c.func.value) == "super")]:
+            passed = {norm(a) for a in c.args} | {norm(k.value) for k in c.keywords}
+            missing = [p_ for p_ in oparams if p_ not in passed]
+            ctx.check(not missing, "R12.1", f"{qualname_of(opk).replace('flow.record.base.', '')}:forwards->{norm(c.func)[:30]}",
+                      f"`{norm(c)[:70]}` does not pass on {missing}: the members are packed with other arguments than the grouped record was asked for - == and hash of grouped records "
+                      "ignore the ignored-fields configuration", c, f"forwards {oparams}", key=f"R12.1:{qualname_of(opk)}:drops:{','.join(missing)}")
 
     # ------------------------------------------------------------------ R12.2
     ctx.rule("R12.2", "__eq__ and __hash__ are computed from self._pack(<same arguments>) and the arguments read the module "
